@@ -224,9 +224,15 @@ def run(ctx: Ctx):
 
     # ------------------------------------------------------------- configurations: hash seeds
     digests = {}
+    # process configurations: hash seed, process history, and the environment a date/time or text routine might consult
+    envs = {"tz-kiritimati": {"TZ": "Pacific/Kiritimati"}, "tz-adak-c-locale": {"TZ": "America/Adak", "LC_ALL": "C", "LANG": "C"},
+            "utf8-off": {"PYTHONUTF8": "0", "LC_ALL": "POSIX"}}
     for seed, pre in (("0", "none"), ("1", "none"), ("2", "none"), ("4242", "none"),
-                      ("0", "generic-first"), ("0", "parse-first"), ("0", "subclass-first"), ("1", "generic-first")):
-        env = dict(os.environ, PYTHONHASHSEED=seed, VERIF_PRELUDE=pre)
+                      ("0", "generic-first"), ("0", "parse-first"), ("0", "subclass-first"), ("1", "generic-first"),
+                      ("0", "env:tz-kiritimati"), ("0", "env:tz-adak-c-locale"), ("0", "env:utf8-off")):
+        env = dict(os.environ, PYTHONHASHSEED=seed, VERIF_PRELUDE=pre if not pre.startswith("env:") else "none")
+        if pre.startswith("env:"):
+            env.update(envs[pre[4:]])
         seed = f"{seed}/{pre}"
         p = subprocess.run([sys.executable, "-c", "from vf.props.c10 import digest_program; digest_program()"],
                            capture_output=True, text=True, env=env, cwd=str(VERIF), timeout=600)
